@@ -535,7 +535,11 @@ class _ExtendedTypeFetcher(Thread):
         self._count = -1
 
     def _remove_callbacks(self):
-        self._cf.remove_port_callback(CRTPPort.PARAM, self._new_packet_cb)
+        try:
+            self._cf.remove_port_callback(CRTPPort.PARAM, self._new_packet_cb)
+        except ValueError:
+            # Already removed from another thread (finished and disconnected at the same time)
+            pass
         try:
             self._cf.disconnected.remove_callback(self._disconnected_cb)
         except ValueError:
